@@ -13,7 +13,7 @@ use std::{
 
 use incrementalmerkletree::{Address, Hashable, Level, Position, Retention};
 use shardtree::{
-    LocatedPrunableTree, LocatedTree, PrunableTree, RetentionFlags,
+    LocatedPrunableTree, LocatedTree, Node, PrunableTree, RetentionFlags, Tree,
     error::{QueryError, ShardTreeError},
     store::{Checkpoint, ShardStore, TreeState},
 };
@@ -791,6 +791,92 @@ pub(crate) fn truncate_tree_to_subtree_roots<
     .map_err(|e| ShardTreeError::Storage(Error::Query(e)))?;
 
     put_shard_roots::<H, DEPTH, SHARD_HEIGHT>(conn, table_prefix, 0, &roots)
+}
+
+/// Discards the cached node values that truncating the note commitment tree with the given
+/// table prefix to its checkpoint at `checkpoint_id` has invalidated.
+///
+/// `ShardTree::truncate_to_checkpoint` removes the leaves to the right of the checkpoint's
+/// position, but it keeps the annotation of every parent node on the path to that position in
+/// the truncated shard, and it leaves the cap entirely as it was when the cap holds the root
+/// of the shard that the position falls inside. Each of those values is the root of a subtree
+/// that extended past the checkpoint's position, i.e. a hash over leaves that are no longer
+/// part of the tree. If the blocks above the truncation height are then scanned on a chain
+/// that differs from the one they were first scanned on, a root or witness computed through
+/// such a value is wrong, and inserting a frontier or subtree root that disagrees with it
+/// fails with a conflict. This function removes those values (and anything that remains in
+/// the cap to the right of the position); they are recomputed from the tree's contents when
+/// they are next required.
+pub(crate) fn clear_truncated_node_values<
+    H: HashSer + Clone,
+    const DEPTH: u8,
+    const SHARD_HEIGHT: u8,
+>(
+    conn: &rusqlite::Transaction<'_>,
+    table_prefix: &'static str,
+    checkpoint_id: BlockHeight,
+) -> Result<(), Error> {
+    /// Returns `tree` without the nodes to the right of `position` and without the value of
+    /// any node whose subtree extends past `position`.
+    fn go<H: Clone>(tree: &PrunableTree<H>, addr: Address, position: Position) -> PrunableTree<H> {
+        if addr.max_position() <= position {
+            return tree.clone();
+        }
+        match (&**tree, addr.children()) {
+            (Node::Parent { left, right, .. }, Some((l_addr, r_addr))) => {
+                let left = go(left, l_addr, position);
+                let right = if position < r_addr.position_range_start() {
+                    Tree::empty()
+                } else {
+                    go(right, r_addr, position)
+                };
+                if left.is_empty() && right.is_empty() {
+                    Tree::empty()
+                } else {
+                    Tree::parent(None, left, right)
+                }
+            }
+            // The value of a subtree that extends past the position.
+            _ => Tree::empty(),
+        }
+    }
+
+    let position = conn
+        .query_row(
+            &format!(
+                "SELECT position FROM {table_prefix}_tree_checkpoints
+                 WHERE checkpoint_id = :checkpoint_id"
+            ),
+            named_params![":checkpoint_id": u32::from(checkpoint_id)],
+            |row| row.get::<_, Option<u64>>(0),
+        )
+        .optional()
+        .map_err(Error::Query)?
+        .flatten()
+        .map(Position::from);
+
+    // Truncation to the checkpoint of an empty tree leaves nothing behind.
+    let Some(position) = position else {
+        return Ok(());
+    };
+
+    let shard_addr = Address::above_position(SHARD_HEIGHT.into(), position);
+    if let Some(shard) = get_shard::<H>(conn, table_prefix, shard_addr)? {
+        let root = go(shard.root(), shard_addr, position);
+        put_shard(
+            conn,
+            table_prefix,
+            LocatedTree::from_parts(shard_addr, root)
+                .expect("removing nodes from a tree of valid depth preserves validity"),
+        )?;
+    }
+
+    let cap = get_cap::<H>(conn, table_prefix)?;
+    put_cap(
+        conn,
+        table_prefix,
+        go(&cap, Address::from_parts(DEPTH.into(), 0), position),
+    )
 }
 
 pub(crate) fn add_checkpoint(
